@@ -50,6 +50,7 @@ package fstxn
 //@   requires [L2-clean] !dirtyinum[ip.Inum] @C03 @C10
 //@   modifies held, map[uint64]*inode.Inode
 //@   ensures held == store(old(held), ip.Inum, false) && opInv(op)
+//@   ensures forall j uint64 :: j != ip.Inum ==> op.inodes[j] == old(op.inodes[j])
 
 //@ spec (*FsTxn).LockInode
 //@   props C06 C14 C11
@@ -69,13 +70,16 @@ package fstxn
 //@   allocates cache.Cslot, inode.Inode, []uint64, buf.Buf, marshal.Dec, cell:uint64
 //@   modifies held, cache.Cslot.Obj, map[uint64]*inode.Inode
 //@   ensures held == store(old(held), inum, true) && opInv(op)
-//@   ensures result != nil && result.Inum == inum && inodeInv(result) && !dirtyinum[inum] && dirtyInv()
+//@   ensures result != nil && result.Inum == inum && inodeInv(result) && !dirtyinum[inum] && dirtyInv() && result == op.inodes[inum]
+//@   ensures forall j uint64 :: j != inum ==> op.inodes[j] == old(op.inodes[j])
+//@   assumes [I3-live] liveinum[inum] ==> result.Kind != 0
 
 //@ spec (*FsTxn).GetInodeUnlocked
 //@   props C11 C14
 //@   requires opInv(op)
 //@   requires [owned] held[inum] @C11 @C14
-//@   ensures result != nil && result.Inum == inum
+//@   ensures result != nil && result.Inum == inum && result == op.inodes[inum]
+//@   assumes [S5-cache-inode] inodeInv(result)
 
 //@ spec (*FsTxn).OwnInum
 //@   props C14
@@ -92,6 +96,7 @@ package fstxn
 //@   panic_assumed "getInodeInum"
 //@   ensures [H5-live] result != nil ==> result.Inum == inum && inum < 32768 && result.Kind != 0 && held == store(old(held), inum, true) && inodeInv(result) && !dirtyinum[inum] @C08
 //@   ensures [H5-free] result == nil ==> held == old(held) @C08 @C03
+//@   ensures [table] (result != nil ==> result == op.inodes[inum]) && (forall j uint64 :: held[j] && j != inum ==> op.inodes[j] == old(op.inodes[j]))
 //@   assumes [I-live-marked] result != nil ==> abits[theIalloc][inum]
 //@   assumes [I3-live] inum < 32768 && liveinum[inum] ==> result != nil
 //@   ensures opInv(op) && dirtyInv()
